@@ -878,13 +878,13 @@ func TestC05(t *testing.T) {
 	defer r.Finish()
 	r.Rule("(a) case = generated generation layout (1–10 generations, 1–3 files, levels by sequence number, sizes small/≥2 GB, first-block counts low/1000/10000, tombstones) + random sequence of Plan(hot|cold)/PlanLevel(1..3)/PlanOptimize/ForceFull/Release/engine-round/complete-compaction/snapshot/tombstone against the real DefaultPlanner over a stats provider; (b) case = real shard history (snapshots with overlapping cells, deletes, raised levels, planner calls, held groups executed later with the engine's strategies, M1 read-back). Oracle on every returned group: files live, disjoint from every held group, whole generations, no live generation strictly between two members. Non-trivial: (a) ≥3 generations and ≥1 group returned, (b) ≥1 planned group executed. Distinct = hash of layout + op sequence.")
 	r.Assume("planner calls are sequential (Plan vs Release concurrency belongs to C39)", "generation order = numeric order of the generation id in the file name", "hot/cold lastWrite are placed ≥ 999 h from the 1 h (a) / 4 h (b) cold threshold, so wall-clock reads inside the planner cannot change a decision")
-	na := r.N(2000, 200000)
+	na := r.N(4000, 200000)
 	t0 := time.Now()
 	for i := 0; i < na; i++ {
 		c05Sequence(r, i)
 	}
 	r.Extra("part_a_wall_s", time.Since(t0).Seconds())
-	nb := r.N(150, 3000)
+	nb := r.N(80, 1500)
 	for i := 0; i < nb; i++ {
 		c05RealHistory(r, i)
 	}
